@@ -452,6 +452,13 @@ def run_existing(job, acc):
             else:
                 extra = set(after_listing) - set(before_listing)
                 allowed = {f for f in extra if expect == "reject-backup-allowed" and "-backup-v" in f}
+                # SQLite's own side files of the path under test (a junk header can claim WAL mode) are not a
+                # clobbered database; the statement only demands that the rejected file itself is unchanged
+                side = {f for f in extra if f in (os.path.basename(path) + "-wal", os.path.basename(path) + "-shm",
+                                                  os.path.basename(path) + "-journal")}
+                if side:
+                    acc.dontcare["c19_sqlite_side_files_next_to_rejected_file"] += 1
+                allowed |= side
                 if extra - allowed:
                     viol(acc, case, "rejecting a file created other files", {"extra": sorted(extra - allowed)})
         elif expect == "reject-or-accept":
